@@ -459,8 +459,8 @@ theorem lowStage_spec (md : Nat) (sorted : List VCell) (from_ to : Nat) (strict 
       (scanWhole from_ 0 sorted).1 + c.val ≤ to)
     (hft : from_ ≤ to) (htot : to ≤ sumVal sorted) :
     from_ ≤ accL ∧ accL ≤ to ∧ accL + sumVal restA = sumVal sorted ∧ (∀ c ∈ restA, c ∈ sorted) ∧
-    (strict = true → mLow ≤ accL - from_ ∧ accL - from_ ≤ mLow + uLow) ∧
-    (strict = false → accL - from_ ≤ mLow ∧ mLow ≤ accL - from_ + uLow) := by
+    (strict = true → mLow ≤ accL - from_ ∧ accL - from_ ≤ mLow + uLow ∧ (accL - from_ < mLow + uLow ∨ uLow = 0)) ∧
+    (strict = false → accL - from_ ≤ mLow ∧ mLow ≤ accL - from_ + uLow ∧ (mLow < accL - from_ + uLow ∨ uLow = 0)) := by
   have sp := scanWhole_spec from_ sorted 0
   simp only [] at sp
   unfold lowStage at h
@@ -524,8 +524,8 @@ theorem highStage_spec (md to : Nat) (strict noSplit rev : Bool)
     (hdy : ∀ c ∈ restA, 4 ^ (md - c.depth) ∣ c.val)
     (hle : accL ≤ to) (hsum : accL + sumVal restA = total) (htot : to ≤ total) :
     uLow' = uLow ∧
-    (strict = true → M ≤ mLow + (to - accL) ∧ mLow + (to - accL) ≤ M + uHigh) ∧
-    (strict = false → mLow + (to - accL) ≤ M ∧ M ≤ mLow + (to - accL) + uHigh) := by
+    (strict = true → M ≤ mLow + (to - accL) ∧ mLow + (to - accL) ≤ M + uHigh ∧ (mLow + (to - accL) < M + uHigh ∨ uHigh = 0)) ∧
+    (strict = false → mLow + (to - accL) ≤ M ∧ M ≤ mLow + (to - accL) + uHigh ∧ (M < mLow + (to - accL) + uHigh ∨ uHigh = 0)) := by
   have sp := scanWhole_spec to restA accL
   simp only [] at sp
   unfold highStage at h
@@ -657,8 +657,8 @@ theorem mass_bracket (maxDepth : Nat) (cells : List VCell) (from_ to : Nat) (asc
     (h : selectWithMass maxDepth cells from_ to asc strict noSplit rev = some (cs, M, uLow, uHigh))
     (hdy : ∀ c ∈ cells, 4 ^ (maxDepthOf maxDepth cells - c.depth) ∣ c.val)
     (hft : from_ ≤ to) (htot : to ≤ sumVal cells) (hsame : NotSameCell cells from_ to asc) :
-    (strict = true → M ≤ to - from_ ∧ to - from_ ≤ M + uLow + uHigh) ∧
-    (strict = false → to - from_ ≤ M ∧ M ≤ to - from_ + uLow + uHigh) := by
+    (strict = true → M ≤ to - from_ ∧ to - from_ ≤ M + uLow + uHigh ∧ (to - from_ < M + uLow + uHigh ∨ uLow + uHigh = 0)) ∧
+    (strict = false → to - from_ ≤ M ∧ M ≤ to - from_ + uLow + uHigh ∧ (M < to - from_ + uLow + uHigh ∨ uLow + uHigh = 0)) := by
   obtain ⟨sm, ss⟩ := sortedOf_spec asc cells
   unfold selectWithMass at h
   cases hl : lowStage (maxDepthOf maxDepth cells) (sortedOf asc cells) from_ strict noSplit rev with
@@ -675,7 +675,7 @@ theorem mass_bracket (maxDepth : Nat) (cells : List VCell) (from_ to : Nat) (asc
       (sumVal (sortedOf asc cells)) h (fun c hc => hdy' c (l4 c hc)) l2 l3 (by rw [ss]; exact htot)
     subst h1
     refine ⟨fun hs => ?_, fun hs => ?_⟩
-    · obtain ⟨a, b⟩ := l5 hs; obtain ⟨c, d⟩ := h2 hs; omega
-    · obtain ⟨a, b⟩ := l6 hs; obtain ⟨c, d⟩ := h3 hs; omega
+    · obtain ⟨a, b, b'⟩ := l5 hs; obtain ⟨c, d, d'⟩ := h2 hs; omega
+    · obtain ⟨a, b, b'⟩ := l6 hs; obtain ⟨c, d, d'⟩ := h3 hs; omega
 
 end Moc.Mass
